@@ -121,6 +121,7 @@ type Runner struct {
 	gated   any // in-flight step-by-step checkpoint (gate.go)
 	seenRem map[string]bool
 	fc      *faultClient
+	lastFlags [3]bool
 	lastCut   int64
 	baseMs    int64 // times are logged in ms relative to this instant (TLC integers are 32 bit)
 	holdDone  chan struct{}
@@ -715,6 +716,24 @@ func (r *Runner) markLocalSeen() {
 	}
 }
 
+// lifecycleFlags reads DB.IsOpen / read-lock / handle state. While a goroutine is parked at a hook that fires under one
+// of litestream's mutexes these accessors would block, so they run with a timeout and fall back to the last known values.
+func (r *Runner) lifecycleFlags() (hasRead, open, handles bool) {
+	if r.ls == nil {
+		return false, false, false
+	}
+	type fl struct{ a, b, c bool }
+	ch := make(chan fl, 1)
+	ls := r.ls
+	go func() { ch <- fl{ls.VerifHasReadLock(), ls.IsOpen(), ls.SQLDB() != nil} }()
+	select {
+	case v := <-ch:
+		r.lastFlags = [3]bool{v.a, v.b, v.c}
+	case <-time.After(40 * time.Millisecond):
+	}
+	return r.lastFlags[0], r.lastFlags[1], r.lastFlags[2]
+}
+
 func listLTX(dir string) [][]int {
 	out := [][]int{}
 	for lvl := 0; lvl <= 9; lvl++ {
@@ -920,9 +939,7 @@ func RunCase(c Case, baseDir string, hooks func(r *Runner, ls *litestream.DB)) (
 						}
 					}
 					r.observe(&ev)
-					ev.HasRead = r.ls != nil && r.ls.VerifHasReadLock()
-					ev.Open = r.ls != nil && r.ls.IsOpen()
-					ev.Handles = r.ls != nil && r.ls.SQLDB() != nil
+					ev.HasRead, ev.Open, ev.Handles = r.lifecycleFlags()
 					if st := r.store; st != nil {
 						ev.NDBs = len(st.(*litestream.Store).DBs())
 					}
